@@ -226,11 +226,11 @@ func ValidateLogConfig(cfg *configpb.LogConfig) (*ValidatedLogConfig, error) {
 		if !found {
 			return nil, errors.New("missing driver:// in ctfe_storage_connection_string")
 		}
-		if strings.HasPrefix(scheme, "mysql") {
+		if scheme == "mysql" {
 			if _, err := mysql.ParseDSN(dsn); err != nil {
 				return nil, errors.New("failed to parse ctfe_storage_connection_string for mysql driver")
 			}
-		} else if strings.HasPrefix(scheme, "postgres") {
+		} else if scheme == "postgresql" || scheme == "postgres" {
 			if _, err := pgconn.ParseConfig(cfg.CtfeStorageConnectionString); err != nil {
 				return nil, errors.New("failed to parse ctfe_storage_connection_string for postgresql pgx driver")
 			}
